@@ -6,7 +6,7 @@ import FV.Model.Alloc
     <mode> hist <eps.dist> <eps.area> <sqrt-answer> <ncells> cell* <nfixed> idx* <nops> op*
       cell = V x y w h <region|-> k (name val)* depth       (YAML vector)
            | O cx cy w h region fixed hard k (name val)* depth   (Rectangle object)
-      op   = R t levels | U | G | M t | A k name* | C k name* | N | I i | L name | K k name* | F i | R0 t levels
+      op   = R t levels | U | G | M t | A k name* | C k name* | N | I i | L name | K k name* | F i | R0 t levels | U0 | G0
 
   reply: segments joined by " ;; " — constructor result, then one segment per op
   (R/U/G: dump of the new allocation or `err:<Class>`, after which the history stops;
@@ -47,6 +47,7 @@ inductive HOp (α : Type) where
   | compat (names : List String)
   | fix (i : Nat)
   | refine0 (t : α) (l : Nat)
+  | op0 (o : Op α)
 
 def pHOp : P (HOp α) := do
   let k ← tok
@@ -60,6 +61,8 @@ def pHOp : P (HOp α) := do
   | "N" => pure .counts
   | "F" => do let i ← pNat; pure (.fix i)
   | "R0" => do let t ← pSc; let l ← pNat; pure (.refine0 t l)
+  | "U0" => pure (.op0 .uniform)
+  | "G0" => pure (.op0 .griddify)
   | "I" => do let i ← pInt; pure (.rectAt i)
   | "L" => do let m ← tok; pure (.modAlloc m)
   | "K" => do let ms ← pList tok; pure (.compat ms)
@@ -100,6 +103,10 @@ def runHist (env : Env α) : List (HOp α) → Eps α → Allocation α → List
     -- `a.refine(t, l)` whose result is discarded (the object stays in use; the call may define nothing new: the
     -- tolerances are defined since the constructor)
     let s := match refine env st a t l with | .ok _ => "-" | .error e => e.toStr
+    runHist env rest st a (s :: acc)
+  | .op0 o :: rest, st, a, acc =>
+    -- `uniform_refinement_depth()` / `griddify()` whose result is discarded
+    let s := if opSize st a o > 2500 then "skip:too-big" else match applyOp env st a o with | .ok _ => "-" | .error e => e.toStr
     runHist env rest st a (s :: acc)
   | .counts :: rest, st, a, acc =>
     let d := match a.maxRefinementDepth with | .ok d => toString d | .error e => e.toStr
